@@ -34,6 +34,9 @@ type Hooks struct {
 	BeforeWrite  func(ctx context.Context, verb string, obj client.Object) error // create/update/patch/delete/status-update/status-patch
 	AfterWrite   func(ctx context.Context, verb string, obj client.Object) error
 	ObserveWrite func(verb string, before, after client.Object) // after a successful write, before==nil for create, after==nil once the object is gone
+	// NotYetCached: reads that ask for resourceVersion=0 are answered from the API server's watch cache, which may not
+	// hold a recent object yet; a pod for which this returns true is invisible to such reads (Get: NotFound, List: absent)
+	NotYetCached func(pod *corev1.Pod) bool
 }
 
 var uidSeq atomic.Int64
@@ -41,7 +44,7 @@ var uidSeq atomic.Int64
 func (h *Hooks) get() Hooks {
 	h.mu.Lock()
 	defer h.mu.Unlock()
-	return Hooks{BeforeGet: h.BeforeGet, AfterGet: h.AfterGet, BeforeList: h.BeforeList, BeforeWrite: h.BeforeWrite, AfterWrite: h.AfterWrite, ObserveWrite: h.ObserveWrite}
+	return Hooks{BeforeGet: h.BeforeGet, AfterGet: h.AfterGet, BeforeList: h.BeforeList, BeforeWrite: h.BeforeWrite, AfterWrite: h.AfterWrite, ObserveWrite: h.ObserveWrite, NotYetCached: h.NotYetCached}
 }
 
 // Set replaces hooks atomically.
@@ -114,6 +117,13 @@ func New(hooks *Hooks, objs ...client.Object) client.WithWatch {
 				}
 			}
 			err := c.Get(ctx, key, obj, opts...)
+			if h := hooks.get(); err == nil && h.NotYetCached != nil {
+				geto := &client.GetOptions{}
+				geto.ApplyOptions(opts)
+				if pod, ok := obj.(*corev1.Pod); ok && geto.Raw != nil && geto.Raw.ResourceVersion == "0" && h.NotYetCached(pod) {
+					err = apierrors.NewNotFound(schema.GroupResource{Resource: "pods"}, key.Name)
+				}
+			}
 			if h := hooks.get(); h.AfterGet != nil {
 				h.AfterGet(ctx, key, obj, err)
 			}
@@ -131,6 +141,17 @@ func New(hooks *Hooks, objs ...client.Object) client.WithWatch {
 			// fidelity: the fake client ignores ListOptions.Raw; a real API server honours its field selector
 			lo := &client.ListOptions{}
 			lo.ApplyOptions(opts)
+			if h := hooks.get(); h.NotYetCached != nil && lo.Raw != nil && lo.Raw.ResourceVersion == "0" {
+				if pl, ok := list.(*corev1.PodList); ok {
+					kept := pl.Items[:0]
+					for i := range pl.Items {
+						if !h.NotYetCached(&pl.Items[i]) {
+							kept = append(kept, pl.Items[i])
+						}
+					}
+					pl.Items = kept
+				}
+			}
 			if lo.Raw != nil && lo.Raw.FieldSelector != "" {
 				if pl, ok := list.(*corev1.PodList); ok {
 					sel, err := fields.ParseSelector(lo.Raw.FieldSelector)
